@@ -3,7 +3,7 @@
    tools/run_seeded.py [name-prefix] ; updates seeded/<name>/meta.json 'last_run'."""
 import json, os, subprocess, sys, shutil, time
 ROOT = os.path.dirname(os.path.dirname(os.path.abspath(__file__)))
-WT = "/var/tmp/mutwt"
+WT = os.environ.get("VERIF_MUTWT", "/var/tmp/mutwt")
 def sh(*a, **k): return subprocess.run(a, capture_output=True, text=True, **k)
 def reset():
     if not os.path.isdir(WT):
